@@ -476,7 +476,9 @@ impl HttpServer {
     /// Note that this function can block the thread on write, since the
     /// operation is blocking.
     pub fn flush_outgoing_writes(&mut self) {
-        for (_, connection) in self.connections.iter_mut() {
+        let epoll = &self.epoll;
+        for (fd, connection) in self.connections.iter_mut() {
+            let was_outgoing = connection.state == ClientConnectionState::AwaitingOutgoing;
             while connection.state == ClientConnectionState::AwaitingOutgoing {
                 if let Err(e) = connection.write() {
                     if let ServerError::ConnectionError(ConnectionError::InvalidWrite) = e {
@@ -485,6 +487,14 @@ impl HttpServer {
                     }
                     break;
                 }
+            }
+            if was_outgoing && connection.state == ClientConnectionState::AwaitingIncoming {
+                // Everything was flushed: wait for incoming bytes again.
+                let _ = Self::epoll_mod(
+                    epoll,
+                    *fd,
+                    epoll::EventSet::IN | epoll::EventSet::READ_HANG_UP,
+                );
             }
         }
     }
